@@ -95,7 +95,7 @@ fn main() {
     let args = parse_args();
     let mut rng = Sm64::new(args.seed);
     let thorough = args.tier == "thorough";
-    let ndatasets = if thorough { 900 } else { 150 };
+    let ndatasets = if thorough { 4000 } else { 600 };
     let maxn = if thorough { 60 } else { 28 };
     let mut out = Out::new(&args.out, args.shards, "C09.Corr", "case", args.only);
     let mets = [Met::L2, Met::L2, Met::L1, Met::Linf];
